@@ -2,6 +2,7 @@ package keeper
 
 import (
 	markettypes "github.com/SaoNetwork/sao/x/market/types"
+	nodetypes "github.com/SaoNetwork/sao/x/node/types"
 	ordertypes "github.com/SaoNetwork/sao/x/order/types"
 	sdk "github.com/cosmos/cosmos-sdk/types"
 )
@@ -20,9 +21,9 @@ func (k Keeper) HandleTimeoutOrder(ctx sdk.Context, orderId uint64) {
 		return
 	}
 
-	if uint64(ctx.BlockHeight())+order.Timeout >= order.CreatedAt+order.Duration {
-		return
-	}
+	// last examination before the end of the order's life: nothing is re-assigned or
+	// re-scheduled any more, what is still unfinished is given up (cancelled / refunded)
+	lastCheck := uint64(ctx.BlockHeight())+order.Timeout >= order.CreatedAt+order.Duration
 
 	var timeoutShards []ordertypes.Shard
 	var uncompletedShards []uint64
@@ -63,10 +64,13 @@ func (k Keeper) HandleTimeoutOrder(ctx sdk.Context, orderId uint64) {
 	log.Debug("order timeout", "orderId", order.Id, "sps", sps)
 
 	// TODO: sp punishment?
-	randSp := k.node.RandomSP(ctx, timeoutCount, sps, int64(order.Size_))
+	var randSp []nodetypes.Node
+	if !lastCheck {
+		randSp = k.node.RandomSP(ctx, timeoutCount, sps, int64(order.Size_))
+	}
 
 	if len(randSp) == 0 {
-		if uint64(ctx.BlockHeight())-order.CreatedAt > MaxTries*order.Timeout {
+		if lastCheck || uint64(ctx.BlockHeight())-order.CreatedAt > MaxTries*order.Timeout {
 			if order.Status != ordertypes.OrderCompleted {
 				// order timeout , remove shard and cancel order
 				for _, shardId := range order.Shards {
